@@ -117,6 +117,10 @@ impl SocketType {
     pub fn compatible(&self, other: SocketType) -> bool {
         let row_index = *self as usize;
         let col_index = other as usize;
+        // STREAM (raw, non-ZMTP peers) is not part of the 11x11 matrix
+        if row_index >= 11 || col_index >= 11 {
+            return false;
+        }
         COMPATIBILITY_MATRIX[row_index * 11 + col_index] != 0
     }
 }
